@@ -2,7 +2,7 @@ ID = "C20"
 TESTS = [
     T("nfs40sim", "TestC20NFS40ByteRangeLocks",
       {"checks": 3000, "shards": 2, "timeout": 300},
-      {"checks": 60000, "shards": 16, "timeout": 1500}),
+      {"checks": 40000, "shards": 5, "timeout": 1500}),
     T("nfs40sim", "TestC20NFS40Regress.*",
       {"checks": 1, "shards": 1, "timeout": 120},
       {"checks": 1, "shards": 1, "timeout": 120}, plain=True),
